@@ -72,7 +72,14 @@ def run(ctx):
     r2 = ctx.tlc("MC_FactStore", "MC_FactStore_facts.cfg", timeout=600)
     ctx.require_actions(storage_util.parse_action_coverage(r2), ["OpenFactsAny", "FInsertAny", "FDeleteAny", "WriteFacts", "OpenMergeAny", "Write", "OpenAny"])
     replay(ctx, vh, r2.replays, "facts-fp")
-    nsim, depth = (24, 200) if not ctx.thorough else (160, 300)
+    # mid-segment reconstruction by replay of per-command updates over a committed prior index
+    r5 = ctx.tlc("MC_FactStore", "MC_FactStore_midseg.cfg", timeout=900)
+    ctx.require_actions(storage_util.parse_action_coverage(r5), ["InsertAny", "DeleteAny", "AddCommand", "Write", "OpenAny", "OpenFactsAny"])
+    nmid = sum(1 for b in r5.replays if b["e"]["o"] in ("open", "open_facts") and b["e"]["i"] < b["h"][-2]["i"])
+    if nmid == 0:
+        raise verif.ToolError("no mid-segment reopening among the behaviours")
+    replay(ctx, vh, r5.replays, "facts-mid")
+    nsim, depth = (16, 200) if not ctx.thorough else (160, 300)
     sim = simulate(ctx, "Sim_FactStore.cfg" if not ctx.thorough else "Sim_FactStore_thorough.cfg",
                    max(1, nsim // 4), depth, "sim")
     writes = [sum(1 for s in b["h"] if s["o"] == "write" and s["r"] == "ok") for b in sim]
@@ -88,6 +95,8 @@ def run(ctx):
         "constants": storage_util.cfg_constants(verif.TLA, "MC_FactStore.cfg"),
         "one_behaviour_per_transition": len(beh),
         "fact_perspective_behaviours": len(r2.replays),
+        "midsegment_behaviours": len(r5.replays),
+        "midsegment_reopenings_below_head": nmid,
         "simulation_behaviours": len(sim),
         "simulation_steps_per_behaviour": depth,
         "segments_chained_per_simulation_behaviour": {"min": min(writes), "max": max(writes)},
